@@ -70,6 +70,9 @@ pub enum FaultOp {
 #[derive(Clone, Debug, Serialize, Deserialize, PartialEq)]
 pub enum AnsOp {
     Enc { sym: i64, m: usize },
+    /// encode the `idx`-th symbol that this run has decoded so far (bits-back: the generator
+    /// need not know the decoded symbols)
+    EncBack { idx: usize, m: usize },
     EncBatch { form: EncForm, items: Vec<(i64, usize)>, fail_at: Option<usize> },
     Dec { m: usize },
     DecBatch { form: DecForm, ms: Vec<usize>, fail_at: Option<usize> },
@@ -148,6 +151,19 @@ impl<C: Ws> Coder<C> {
     fn state(&self) -> u128 {
         on_coder!(self, c => s_to(c.state()))
     }
+    /// number of words on the bulk (cheap: no copy)
+    fn bulk_len(&self) -> usize {
+        match self {
+            Coder::V(c) => c.bulk().len(),
+            Coder::Sm(c) => c.bulk().len(),
+            Coder::Cur(c) => c.bulk().pos(),
+            Coder::St(c) => c.bulk().data.len(),
+            Coder::Rev(c) => {
+                let b = &c.bulk().0;
+                b.buf().len() - b.pos()
+            }
+        }
+    }
     fn bulk_words(&self) -> Vec<u64> {
         match self {
             Coder::V(c) => c.bulk().iter().map(|&w| w_to(w)).collect(),
@@ -166,7 +182,12 @@ impl<C: Ws> Coder<C> {
     /// `clone().into_compressed()` (None if a bounded backend has no room for the head)
     fn export(&self) -> Option<Vec<u64>> {
         match self {
-            Coder::V(c) => Some(c.clone().into_compressed().unwrap_infallible().iter().map(|&w| w_to(w)).collect()),
+            // `into_compressed()` and `Vec::from(coder)` are two public routes to the same words;
+            // the choice is a function of the coder's state (replay stays a pure function of the trace)
+            Coder::V(c) => {
+                let words: Vec<C::W> = if c.bulk().len().wrapping_add(s_to(c.state()) as usize) & 1 == 1 { c.clone().into() } else { c.clone().into_compressed().unwrap_infallible() };
+                Some(words.iter().map(|&w| w_to(w)).collect())
+            }
             Coder::Sm(c) => Some(c.clone().into_compressed().unwrap_infallible().iter().map(|&w| w_to(w)).collect()),
             Coder::Cur(c) => c.clone().into_compressed().ok().map(|b| {
                 let (buf, pos) = b.into_buf_and_pos();
@@ -413,13 +434,13 @@ impl<'t, C: Ws> World<'t, C> {
     fn abstract_state(&self, last: u64) -> u64 {
         let x = self.coder.state();
         let bits = 128 - x.leading_zeros() as u64;
-        let bulk_empty = self.coder.bulk_words().is_empty() as u64;
+        let bulk_empty = (self.coder.bulk_len() == 0) as u64;
         hash_mix(hash_mix(bits, bulk_empty), hash_mix(last, self.t.cfg as u64 * 16 + self.stack.len().min(8) as u64))
     }
 
     fn after_op(&mut self, ctx: &mut Ctx) -> Result<(), Violation> {
         let last = match ctx.op.checked_sub(0).and_then(|i| self.t.ops.get(i)) {
-            Some(AnsOp::Enc { .. }) => 1,
+            Some(AnsOp::Enc { .. }) | Some(AnsOp::EncBack { .. }) => 1,
             Some(AnsOp::Dec { .. }) => 2,
             Some(AnsOp::EncBatch { .. }) => 3,
             Some(AnsOp::DecBatch { .. }) => 4,
@@ -431,12 +452,13 @@ impl<'t, C: Ws> World<'t, C> {
         let h = self.abstract_state(last);
         ctx.stats.state(h);
         let x = self.coder.state();
-        let bulk = self.coder.bulk_words();
+        let bulk_len = self.coder.bulk_len();
         // C01 oracle 4: the documented state invariant, through the public accessors
-        if ctx.on("C01") && !bulk.is_empty() && x < (1u128 << (C::SB - C::WB)) {
-            viol!(ctx, "C01", "state-invariant-broken", "state={:#x} with non-empty bulk (len {})", x, bulk.len());
+        if ctx.on("C01") && bulk_len != 0 && x < (1u128 << (C::SB - C::WB)) {
+            viol!(ctx, "C01", "state-invariant-broken", "state={:#x} with non-empty bulk (len {})", x, bulk_len);
         }
         if ctx.any(&["C06", "C04"]) && self.r_valid {
+            let bulk = self.coder.bulk_words();
             if x != self.r.x || bulk != self.r.bulk {
                 viol!(ctx, ctx.prop, "ans-state-differs-from-reference",
                     "state={:#x} ref={:#x} bulk={:x?} ref_bulk={:x?}", x, self.r.x, tail(&bulk), tail(&self.r.bulk));
@@ -484,12 +506,17 @@ impl<'t, C: Ws> World<'t, C> {
             }
         }
         if ctx.on("C12") {
-            self.check_c12(ctx)?;
+            self.check_c12(ctx, false)?;
         }
         Ok(())
     }
 
-    fn check_c12(&mut self, ctx: &mut Ctx) -> Result<(), Violation> {
+    fn check_c12(&mut self, ctx: &mut Ctx, force: bool) -> Result<(), Violation> {
+        // long messages: the export is O(n), so beyond 2000 symbols the bound is evaluated at
+        // every 37th symbol and at the end only (fewer evaluations of the same sound bound)
+        if !force && self.n_enc > 2000 && self.n_enc % 37 != 0 {
+            return Ok(());
+        }
         if let Some(info) = self.info_bits {
             let words = match self.coder.export() {
                 Some(w) => w,
@@ -534,7 +561,7 @@ impl<'t, C: Ws> World<'t, C> {
         if prob as u128 == (1u128 << p) - 1 {
             ctx.stats.hit("probe-prob-max");
         }
-        let writes_after = self.coder.bulk_words().len();
+        let writes_after = self.coder.bulk_len();
         if writes_after > writes_before {
             ctx.stats.hit("probe-flush");
         }
@@ -618,7 +645,23 @@ impl<'t, C: Ws> World<'t, C> {
     }
 
     fn step(&mut self, op: &AnsOp, ctx: &mut Ctx) -> Result<(), Violation> {
+        let translated;
+        let op = if let AnsOp::EncBack { idx, m } = op {
+            match self.log.decoded.get(*idx) {
+                Some(sym) => {
+                    translated = AnsOp::Enc { sym: *sym, m: *m };
+                    &translated
+                }
+                None => {
+                    ctx.stats.hit("skipped-op");
+                    return Ok(());
+                }
+            }
+        } else {
+            op
+        };
         match op {
+            AnsOp::EncBack { .. } => unreachable!(),
             AnsOp::Enc { sym, m } => {
                 let Some(model) = self.model(*m) else { ctx.stats.hit("skipped-op"); return Ok(()) };
                 if !model.can_encode() || model.lcp64(*sym).is_none() {
@@ -628,10 +671,12 @@ impl<'t, C: Ws> World<'t, C> {
                 if ctx.on("C09") {
                     self.enumerate_faults_here(*m, *sym, ctx)?;
                 }
-                let before = self.export_sig();
-                let wb = self.coder.bulk_words().len();
+                // (O(n) observations are skipped where the active property does not use them:
+                // C12 runs messages of tens of thousands of symbols)
+                let before = if ctx.on("C12") { None } else { self.export_sig() };
+                let wb = self.coder.bulk_len();
                 let pre_state = self.coder.state();
-                let pre_bulk = self.coder.bulk_words();
+                let pre_bulk = if ctx.on("C09") { self.coder.bulk_words() } else { Vec::new() };
                 let res = self.coder.enc(self.model(*m).unwrap(), *sym);
                 match res {
                     EncRes::Ok => {
@@ -845,7 +890,7 @@ impl<'t, C: Ws> World<'t, C> {
             _ => items.len(),
         };
         let sig0 = self.export_sig();
-        let wb = self.coder.bulk_words().len();
+        let wb = self.coder.bulk_len();
         let res = self.coder.enc_batch(form, &resolved, fail_at);
         ctx.stats.hit(&format!("op-enc-batch-{:?}", form));
         let mut twin_ok = true;
@@ -1146,7 +1191,7 @@ impl<'t, C: Ws> World<'t, C> {
             }
         }
         if c8 && (self.coder.state() != pre_state || self.coder.bulk_words() != pre_bulk) {
-            viol!(ctx, "C08", "ans-inspection-left-a-trace", "view {:?}: state {:#x}->{:#x}, bulk {} -> {} words", view, pre_state, self.coder.state(), pre_bulk.len(), self.coder.bulk_words().len());
+            viol!(ctx, "C08", "ans-inspection-left-a-trace", "view {:?}: state {:#x}->{:#x}, bulk {} -> {} words", view, pre_state, self.coder.state(), pre_bulk.len(), self.coder.bulk_len());
         }
         Ok(())
     }
@@ -1211,7 +1256,7 @@ impl<'t, C: Ws> World<'t, C> {
     }
 
     fn seek_beyond(&mut self, via: SeekVia, extra: usize, ctx: &mut Ctx) -> Result<(), Violation> {
-        let len = self.coder.bulk_words().len();
+        let len = self.coder.bulk_len();
         let pos = len + 1 + extra;
         let state: C::S = s_from(self.coder.state());
         ctx.stats.hit("fault-seek-beyond");
@@ -1235,6 +1280,9 @@ impl<'t, C: Ws> World<'t, C> {
     }
 
     fn finish(&mut self, ctx: &mut Ctx) -> Result<(), Violation> {
+        if ctx.on("C12") {
+            self.check_c12(ctx, true)?;
+        }
         let words = self.coder.export();
         if let Some(words) = &words {
             if ctx.any(&["C06", "C04"]) && self.r_valid && *words != self.r.words() {
@@ -1294,6 +1342,13 @@ impl<'t, C: Ws> World<'t, C> {
                 AnsOp::Enc { sym, m } => {
                     phase = 1;
                     encs.push((*sym, *m));
+                }
+                AnsOp::EncBack { idx, m } => {
+                    phase = 1;
+                    match self.log.decoded.get(*idx) {
+                        Some(s) => encs.push((*s, *m)),
+                        None => return false,
+                    }
                 }
                 AnsOp::Reload { .. } | AnsOp::Inspect { .. } | AnsOp::CloneSwap => {}
                 _ => return false,
@@ -1522,7 +1577,9 @@ pub fn generate(seed: u64, prop: &str, thorough: bool) -> AnsTrace {
     let mut n_snaps = 0usize;
 
     if prop == "C12" && bias.chance(1, 2) {
-        let n = if thorough && bias.chance(1, 10) { 20_000 } else { n_ops.max(200).min(2000) };
+        // a per-symbol loss far above the rounding term but far below one bit needs tens of
+        // thousands of symbols to use up the constant of the bound
+        let n = if bias.chance(1, if thorough { 10 } else { 40 }) { 20_000 + rng.usize(30_000) } else { n_ops.max(200).min(2000) };
         let ops = crate::for_cfg!(cfg, |C| greedy_c12_ops::<C>(&mut rng, &built, n));
         return AnsTrace { cfg, backend, init, models, ops, expect: None, expect_decoded: None };
     }
@@ -1539,20 +1596,11 @@ pub fn generate(seed: u64, prop: &str, thorough: bool) -> AnsTrace {
                 ops.push(AnsOp::Inspect { view: View::GetBinary, n: 0 });
             }
         }
-        // the encode half needs the decoded symbols: resolved by executing the decode half
-        let t0 = AnsTrace { cfg, backend: backend.clone(), init: init.clone(), models: models.clone(), ops: ops.clone(), expect: None, expect_decoded: None };
-        let mut stats = Stats::default();
-        let mut ctx = Ctx { prop: "none", stats: &mut stats, op: 0 };
-        let decoded = match std::panic::catch_unwind(std::panic::AssertUnwindSafe(|| exec(&t0, &mut ctx, true))) {
-            Ok(Ok(log)) => log.decoded,
-            _ => Vec::new(),
-        };
-        if decoded.len() == k {
-            for i in (0..k).rev() {
-                ops.push(AnsOp::Enc { sym: decoded[i], m: ms[i] });
-                if rng.chance(1, 12) {
-                    ops.push(AnsOp::Reload { binary: rng.chance(1, 2) });
-                }
+        // the encode half refers to the decoded symbols by index (the generator runs no library code)
+        for i in (0..k).rev() {
+            ops.push(AnsOp::EncBack { idx: i, m: ms[i] });
+            if rng.chance(1, 12) {
+                ops.push(AnsOp::Reload { binary: rng.chance(1, 2) });
             }
         }
         let _ = sb;
